@@ -63,6 +63,8 @@ fn(HK + ".is_valid", params={}, returns="bool", modifies=[], effect="atomic",
    props=("C11",))
 
 fn(HK + ".accept", params={"subprotocol": "none | str", "additional_headers": "anyhdr"}, exceptional="app",
+   returns="tuple(int;hdrs;obj M_ws)", modifies=["self.accepted"],
+   raises={"Exception": {"ensures": [("C11.accept.rejected-unchanged", "self.accepted == old(self.accepted)", "C11")]}},
    loops={0: {"locals": {"name": "anyhdr", "value": "anyhdr", "headers": "hdrs"}}},
    ensures=[
        ("C11.accept.status", "result[0] == (101 if self.http_version == '1.1' else 200)", "C11"),
@@ -113,6 +115,8 @@ cls(
         ("C10.too-big-sticks", "implies(self.g_too_big, self.buffer.length > self.buffer.max_length)", "C10"),
         ("WSStream.inv.accepted-started", "implies(has(self, 'handshake') and value_of(self, 'handshake').accepted, self.g_app_started)", "C11"),
         ("WSStream.inv.accepted", "implies(has(self, 'handshake') and value_of(self, 'handshake').accepted, has(self, 'connection'))", "C04"),
+        # the handshake and the scope were built from the same Request
+        ("WSStream.inv.versions", "implies(has(self, 'handshake') and has(self, 'scope'), value_of(self, 'handshake').http_version == value_of(self, 'scope')['http_version'])", "C11"),
     ],
     rely=[
         ("WSStream.rely.closed-monotone", "implies(old(self.closed), self.closed)", "C03"),
